@@ -154,6 +154,13 @@ theorem source_true_is_ff (b : Bool) :
   unfold GenK.cerBoolEnc
   simp [hz, bind, Except.bind, pure, Except.pure]
 
+/-- the BER encoder of BOOLEAN (`ber/encoder.py` `BooleanEncoder.encodeValue`, `value and (1,) or (0,)`): one contents octet,
+    `01` for TRUE - the `boolTrue` the encoder model has under the BER table -/
+theorem source_ber_true_is_01 (b : Bool) :
+    GenK.berBoolEnc (if b then 1 else 0) =
+      .ok (Kernels.bytesInts [UInt8.ofNat (if b then Generated.berEnc.boolTrue else 0)], false, false) := by
+  cases b <;> rfl
+
 /-- **SET OF order at the source level** (X.690 11.6): `SetOfEncoder.encodeValue` of cer/encoder.py - the CER and DER encoder
     of SET OF - translated from the working tree by gen/py2lean.py (`GenK.setOfSort`; the element encodings are its
     argument): for every list of element encodings the source writes them in ascending order of their octets padded with
